@@ -66,13 +66,15 @@ func (l *LookupOptions) String() string {
 	b.WriteString(strconv.Itoa(l.MaxElements))
 	b.WriteString(", lower_anchor=")
 	if l.LowerAnchor != nil {
-		b.WriteString(l.LowerAnchor.Format(time.RFC3339Nano))
+		// The instant, in UTC: the zone is not part of the bound, and a zone offset
+		// with seconds is printed only to the minute.
+		b.WriteString(l.LowerAnchor.UTC().Format(time.RFC3339Nano))
 	} else {
 		b.WriteString("nil")
 	}
 	b.WriteString(", upper_anchor=")
 	if l.UpperAnchor != nil {
-		b.WriteString(l.UpperAnchor.Format(time.RFC3339Nano))
+		b.WriteString(l.UpperAnchor.UTC().Format(time.RFC3339Nano))
 	} else {
 		b.WriteString("nil")
 	}
